@@ -46,6 +46,7 @@ var Quirks = []Quirk{
 	{ID: "C01-streaming-payload-validated-alias", Detect: hasStreamingPayloadValidatedAlias, SigAny: []string{"server/types: invalid operation: _ != nil (mismatched types", "client/types: invalid operation: _ != nil (mismatched types"}},
 	{ID: "C04-validation-written-in-header-mapping-not-enforced", Detect: hasHeaderMappingValidation},
 	{ID: "C10-nested-collection-wrappers-share-one-validator", Detect: hasValidatedNestedCollection},
+	{ID: "C01-map-with-object-key-does-not-compile", Detect: hasObjectMapKey, SigAny: []string{"declared and not used: key"}},
 	{ID: "C08-nested-result-type-requiredness-read-from-nested-type", Detect: func(d *m.Design) bool { return nestedRequiredNameClash(d, false) }},
 	{ID: "C01-bytes-param-with-length-validation", Detect: hasBytesParamWithLength, SigAny: []string{"client/cli: undefined: _"}},
 	{ID: "C01-result-type-required-validated-response-header", Detect: hasResultTypeRequiredValidatedHeader, SigAny: []string{"client/encode_decode: invalid operation: _ != nil (mismatched types"}},
@@ -974,6 +975,61 @@ func nestedRequiredNameClash(d *m.Design, relax bool) bool {
 						nf.Required = false
 					}
 				}
+			}
+		}
+	}
+	return found
+}
+
+// hasObjectMapKey: some map has a key that is an object (a user type whose
+// attribute is an object, or an inline object).
+func hasObjectMapKey(d *m.Design) bool {
+	found := false
+	var walk func(a *m.Attr, depth int)
+	isObj := func(a *m.Attr) bool {
+		if a == nil {
+			return false
+		}
+		if a.Type.Kind == m.Object {
+			return true
+		}
+		if a.Type.Kind == m.User {
+			if ut := d.TypeByName(a.Type.User); ut != nil && ut.Attr != nil && ut.Attr.Type.Kind == m.Object {
+				return true
+			}
+		}
+		return false
+	}
+	walk = func(a *m.Attr, depth int) {
+		if a == nil || depth > 8 || found {
+			return
+		}
+		switch a.Type.Kind {
+		case m.Map:
+			if isObj(a.Type.Key) {
+				found = true
+				return
+			}
+			walk(a.Type.Key, depth+1)
+			walk(a.Type.Val, depth+1)
+		case m.Array:
+			walk(a.Type.Elem, depth+1)
+		case m.Object, m.Union:
+			for _, f := range a.Type.Fields {
+				walk(f.Attr, depth+1)
+			}
+		}
+	}
+	for _, ut := range d.Types {
+		walk(ut.Attr, 0)
+	}
+	for _, s := range d.Services {
+		for _, meth := range s.Methods {
+			walk(meth.Payload, 0)
+			walk(meth.Result, 0)
+			walk(meth.StreamingPayload, 0)
+			for _, e := range meth.Errors {
+				walk(e.Type, 0)
 			}
 		}
 	}
